@@ -58,6 +58,9 @@ type Outcome struct {
 	Violation  string // non-empty: the property is violated by this case
 	Known      string // with Violation: id of the known-finding class the failing case falls in
 	Skip       bool   // the case is outside the domain (counted, not evaluated)
+	// Excluded counts parts of a passing case that fell in an active known-finding class and were
+	// therefore not asserted (the check function asks Run.KnownActive itself and carries on).
+	Excluded map[string]int
 }
 
 // OK is a helper for the common passing outcome.
@@ -277,6 +280,9 @@ func (s *Sub[C]) eval(c C) string {
 	s.st.Evaluations++
 	if o.Class != "" {
 		s.st.Classes[o.Class]++
+	}
+	for k, n := range o.Excluded {
+		s.st.ExcludedKnown[k] += n
 	}
 	if o.Violation != "" {
 		if o.Known != "" && r.active[o.Known] {
